@@ -438,6 +438,23 @@ def run (pol : Pol) : Prog α → Chip → Chip × Except MErr α × List Req
     let out := run pol (k sr.2) sr.1
     (out.1, out.2.1, r :: out.2.2)
 
+/-! ### the machine: a map from chip coordinates to chips -/
+
+/-- a SpiNNaker machine as the controller sees it: every coordinate has a chip -/
+abbrev Machine := ChipXY → Chip
+
+def Machine.set (m : Machine) (c : ChipXY) (s : Chip) : Machine := fun c' => if c' = c then s else m c'
+
+/-- run a program against a machine: every command is executed by the chip it addresses
+(`pol c` = allocation policy of chip `c`); returns final machine, outcome, commands sent -/
+def runM (pol : ChipXY → Pol) : Prog α → Machine → Machine × Except MErr α × List Req
+  | .ret a, m => (m, .ok a, [])
+  | .fail e, m => (m, .error e, [])
+  | .send r k, m =>
+    let sr := stepChip (pol (r.x, r.y)) (m (r.x, r.y)) r
+    let out := runM pol (k sr.2) (m.set (r.x, r.y) sr.1)
+    (out.1, out.2.1, r :: out.2.2)
+
 open Rig.Gen.Scp in
 def readReq (x y p : Nat) (c : Rig.C07.Chunk) : Req :=
   { x := x, y := y, p := p, cmd := cmdRead, arg1 := c.addr, arg2 := c.size, arg3 := c.dt, data := [] }
@@ -551,6 +568,38 @@ def ReadbackSpec (rows : Nat → Row) (t : List (Option Dec)) : Prop :=
   t.length = rtrEntries ∧ ∀ j, j < rtrEntries → ∃ d, t[j]? = some d ∧ ReadsAs (rows j) d
 instance (rows : Nat → Row) (t : List (Option Dec)) : Decidable (ReadbackSpec rows t) := by
   unfold ReadbackSpec; infer_instance
+
+/-- outcome of `load_routing_tables(tables, app_id)` as seen from outside, tables in the dict's
+iteration order: `base c` = what chip `c` answered to its `alloc_rtr`, `res` = the exception raised
+(`none` = returned normally).  Chips are processed in order;
+each one whose allocation succeeds satisfies `LoadSpec`; at the first chip that answers 0 the call
+raises the router error naming that chip (count, x, y) and the routers of that chip and of all later
+chips are untouched; if no chip answers 0 the call returns normally. -/
+def errOf : Except MErr α → Option MErr
+  | .ok _ => none
+  | .error e => some e
+
+def TablesLoadSpec (rows0 rowsF : ChipXY → Nat → Row) (app : Nat) (base : ChipXY → Nat)
+    (res : Option MErr) : Tables → Prop
+  | [] => res = none
+  | (c, es) :: rest =>
+    if base c = 0 then
+      res = some (.routerError es.length c.1 c.2) ∧
+      ∀ ct ∈ (c, es) :: rest, ∀ j, j < rtrEntries → rowsF ct.1 j = rows0 ct.1 j
+    else
+      LoadSpec (rows0 c) (rowsF c) es app (base c) false true ∧
+      TablesLoadSpec rows0 rowsF app base res rest
+
+def TablesLoadSpec.dec (rows0 rowsF : ChipXY → Nat → Row) (app : Nat) (base : ChipXY → Nat)
+    (res : Option MErr) : (T : Tables) → Decidable (TablesLoadSpec rows0 rowsF app base res T)
+  | [] => by unfold TablesLoadSpec; infer_instance
+  | (c, es) :: rest => by
+    unfold TablesLoadSpec
+    have := TablesLoadSpec.dec rows0 rowsF app base res rest
+    split <;> infer_instance
+instance (rows0 rowsF : ChipXY → Nat → Row) (app : Nat) (base : ChipXY → Nat)
+    (res : Option MErr) (T : Tables) : Decidable (TablesLoadSpec rows0 rowsF app base res T) :=
+  TablesLoadSpec.dec rows0 rowsF app base res T
 
 /-- a row as the router copy can represent it (what the theorems assume of the initial state) -/
 def Row.Ok (r : Row) : Prop :=
